@@ -115,6 +115,9 @@ func (s Schema) check(format string) error {
 				if t.A == "datetime" && format == "cue" {
 					bad("date-time string")
 				}
+				if strings.HasSuffix(t.Default, "@branch") && format == "cue" {
+					bad("default declared on the non-null branch (CUE has one default per disjunction)")
+				}
 			case "const":
 				if format == "openapi" && !strings.HasPrefix(t.A, "disc:") {
 					bad("const")
@@ -253,6 +256,14 @@ func (s Schema) jsonTree(t Term, format, refPrefix string) *om {
 		case "float":
 			m.set("type", "number").set("const", json.Number("1.5"))
 		default: // "disc:<value>": a discriminator constant
+			if lit, isFloat, ok := numConst(t); ok {
+				typ := "integer"
+				if isFloat {
+					typ = "number"
+				}
+				m.set("type", typ).set("const", json.Number(lit))
+				break
+			}
 			v := strings.TrimPrefix(t.A, "disc:")
 			if oapi {
 				m.set("type", "string").set("enum", []any{v})
@@ -261,7 +272,9 @@ func (s Schema) jsonTree(t Term, format, refPrefix string) *om {
 			}
 		}
 	case "enum":
-		if t.A == "int" {
+		if ms := bigEnumMembers(t); ms != nil {
+			m.set("type", "integer").set("enum", ms)
+		} else if t.A == "int" {
 			m.set("type", "integer").set("enum", []any{1, 2})
 		} else {
 			m.set("type", "string").set("enum", []any{"a", "b"})
@@ -317,6 +330,12 @@ func (s Schema) jsonTree(t Term, format, refPrefix string) *om {
 	default:
 		panic("gschema: jsonTree " + t.K)
 	}
+	// a default flavour ending in "@branch" is declared on the non-null branch
+	// of a nullable type instead of on the union (both are legal JSON Schema)
+	onBranch := strings.HasSuffix(t.Default, "@branch") && t.Nullable && !oapi
+	if onBranch {
+		m.set("default", s.DefaultValue(t))
+	}
 	if t.Nullable {
 		if oapi {
 			m.set("nullable", true)
@@ -326,7 +345,7 @@ func (s Schema) jsonTree(t Term, format, refPrefix string) *om {
 			m.set("oneOf", []any{inner, map[string]any{"type": "null"}})
 		}
 	}
-	if t.Default != "" {
+	if t.Default != "" && !onBranch {
 		m.set("default", s.DefaultValue(t))
 	}
 	return m
@@ -334,6 +353,11 @@ func (s Schema) jsonTree(t Term, format, refPrefix string) *om {
 
 // DefaultValue is the JSON value declared as default of t.
 func (s Schema) DefaultValue(t Term) any {
+	if strings.HasSuffix(t.Default, "@branch") {
+		c := t
+		c.Default = strings.TrimSuffix(t.Default, "@branch")
+		return s.DefaultValue(c)
+	}
 	if v, ok := hookDefault(s, t); ok {
 		return v
 	}
@@ -354,6 +378,9 @@ func (s Schema) DefaultValue(t Term) any {
 				return json.Number("1")
 			}
 		case "enum":
+			if t.A == "big" {
+				return json.Number(BigEnumMembers[1])
+			}
 			if t.A == "int" {
 				return json.Number("2")
 			}
@@ -481,7 +508,11 @@ func (s Schema) cueType(t Term, usesStrings *bool) string {
 		case "float":
 			out = "1.5"
 		default:
-			out = fmt.Sprintf("%q", strings.TrimPrefix(t.A, "disc:"))
+			if lit, _, ok := numConst(t); ok {
+				out = lit
+			} else {
+				out = fmt.Sprintf("%q", strings.TrimPrefix(t.A, "disc:"))
+			}
 		}
 	case "enum":
 		// the default of an enum is marked on the member itself
@@ -489,7 +520,9 @@ func (s Schema) cueType(t Term, usesStrings *bool) string {
 		if t.Default != "" {
 			star = "*"
 		}
-		if t.A == "int" {
+		if t.A == "big" {
+			out = BigEnumMembers[0] + " | " + star + BigEnumMembers[1]
+		} else if t.A == "int" {
 			out = "1 | " + star + "2"
 		} else {
 			out = `"a" | ` + star + `"b"`
@@ -535,7 +568,10 @@ func (s Schema) cueType(t Term, usesStrings *bool) string {
 		out = o
 	} else if t.Default != "" {
 		d := cueLit(s.DefaultValue(t))
-		if strings.Contains(out, "|") || strings.Contains(out, "&") {
+		if t.Nullable {
+			// the idiom cog's CUE front-end reads: one flat disjunction `T | null | *d`
+			out = out + " | *" + d
+		} else if strings.Contains(out, "|") || strings.Contains(out, "&") {
 			out = "(" + out + ") | *" + d
 		} else {
 			out = out + " | *" + d
@@ -546,7 +582,7 @@ func (s Schema) cueType(t Term, usesStrings *bool) string {
 
 // cueEnumAttr is the field attribute cog needs to accept a numeric enum.
 func cueEnumAttr(t Term) string {
-	if t.K == "enum" && t.A == "int" {
+	if t.K == "enum" && (t.A == "int" || t.A == "big") {
 		return ` @cog(kind="enum",memberNames="one|two")`
 	}
 	return ""
